@@ -468,6 +468,20 @@ def codec_states():
                     yield st
 
 
+def big_states():
+    """large but highly compressible states: the cookie stays short while
+    the JSON text is several kilobytes"""
+    for count in (60, 120, 250, 500, 1200):
+        for fmt in ('n%05d', 'node-with-a-long-name-%05d', '\xe9\u4e2d%04d'):
+            ids = [fmt % i for i in range(count)]
+            yield [['root', [[i] for i in ids]]]
+            yield [['root', [[i, [[j] for j in ids[:2]]] for i in ids]]]
+            inner = []
+            for i in reversed(ids[:200]):
+                inner = [[i, inner]] if inner else [[i]]
+            yield [['root', inner]]
+
+
 def run_codec(res, case):
     import zlib
 
@@ -502,6 +516,22 @@ def run_codec(res, case):
             elif re.search(r'[^A-Za-z0-9/_=-]', enc):
                 res.violate('codec', 'codec:%s:unsafe-characters' % how,
                             {'encoded': enc})
+    for st in big_states():
+        n += 1
+        jlen = len(json.dumps(st))
+        try:
+            enc = encode_seq(st)
+            back = decode_seq(enc)
+        except CaseTimeout:
+            raise
+        except Exception as e:
+            back = 'EXC %r' % (e,)
+        if back != st:
+            res.violate('codec', 'codec:seq:large-state',
+                        {'json_length': jlen, 'cookie_length': len(enc)
+                         if isinstance(back, list) or 'enc' in dir() else None,
+                         'decoded': repr(back)[:200]},
+                        {'fam': 'codec-one', 'state': st})
     res.evals = n * 2
     res.nt_count = n
     res.states = n
